@@ -16,28 +16,41 @@ META = {
                  "histories, lock-step simulation sparse/dense, ownership argument for aliasing) + decision expressions "
                  "regenerated from mesh_attributes.py / data_container.py on every run + kernel-checked correspondence "
                  "batches on generated histories + independent dict-with-default oracle",
-    "level_text": "Machine-checked Coq theorems (all closed under the global context, unbounded in history length, container "
-                  "size, number of attributes, arity and keys) about an executable model of mesh_attributes.py and of the "
-                  "attribute plumbing of data_container.py: structural invariant incl. alignment (n_elem = rows = len(container)) "
-                  "along every history; total-map laws (read = pure function of the state, read-after-write, frame, refused "
-                  "writes change nothing, defaults after create/clear, growth keeps values and gives new elements the default); "
-                  "the two storages run the same acceptance decision and accept exactly the values of exact arity whose "
-                  "component types widen bool->int->float; the dense bounds test fires exactly outside [0,n) (on the generated "
-                  "expression and along every history); lock-step simulation: the same history run all-sparse and all-dense "
-                  "gives equal observations when reads/writes address elements; no aliasing: an update through a reference "
-                  "obtained by reading (a,i) changes no other entry, whatever happens in between. All FULL for the repaired "
-                  "code (4 fix: commits). Every decision expression / table / growth amount the theorems mention is regenerated "
-                  "from the source on each run; the state machine is tied to the code by kernel-evaluated correspondence "
-                  "batches on generated lock-step histories, and an independent dict-with-default oracle searches for failing inputs.",
-    "level_note": "Trusted: Coq kernel + vm_compute; the c05 translator (its output is what the theorems are about; also exercised "
-                  "by the correspondence); the harness (generators, driver canonicalisation: read-back values are cast to the "
-                  "attribute's type and compared exactly, strings interned as integer codes, numpy arrays of complex/str encoded as "
-                  "unsupported component types); numpy semantics assumed, not proved: Vec(list)/np.full/np.concatenate allocate "
-                  "new arrays, a[k,:] is a view, dtype conversion on assignment (modelled by `cast`). Not covered: mutation of "
-                  "the array returned by the dense as_array (it is a view), strings longer than 32 characters (dense truncates by "
-                  "design), numpy fixed-width truncation inside sparse string cells, register_array_as_attribute, create_attribute(size=...), "
-                  "malformed items in CornerDataContainer += list; sparse writes outside the container are modelled but the "
-                  "agreement theorem is only claimed for element indices.",
+    "level_text": "Machine-checked Coq theorems (closed under the global context; unbounded in history length, container size, "
+                  "number of attributes, arity, keys) about an executable model of mesh_attributes.py and of the attribute "
+                  "plumbing of data_container.py. FULL: structural invariant incl. alignment along every history (append, += "
+                  "list/tuple/set, += container, += self, refused appends incl. a corner list with an item that cannot be "
+                  "unpacked, clear of the container, register_array_as_attribute); total-map laws (read = pure function, "
+                  "read-after-write with the exact stored form `written`, frame, refused writes change nothing, defaults after "
+                  "create/clear, growth keeps values); same acceptance decision in both storages = exact arity + bool->int->float "
+                  "widening of every component; dense bounds test fires exactly outside [0,n) (on the generated expression and "
+                  "along every history); no aliasing: an update through a reference obtained by reading (a,i) - or through an "
+                  "array exported by as_array - changes no other entry, whatever happens in between; len/iteration/`in` "
+                  "semantics; create_attribute(size=len) is the plain creation, any other size keeps its offset. PARTIAL: "
+                  "sparse = dense (lock-step simulation incl. in-place updates attr[k][c]=x) under two guards - strings fit the "
+                  "dense fixed width, updates hit written entries. REFUTED with witnesses (2 known findings, replayed on the "
+                  "implementation every run): in-place update of a never-written entry (dense writes through, sparse does not); "
+                  "strings longer than Type.dtype's 32 characters (dense/as_array cut, sparse scalar keeps). 6 defects repaired "
+                  "by fix: commits. Decision expressions / tables / growth amounts / dtype width are regenerated from the source "
+                  "on each run; the state machine is tied to the code by kernel-evaluated correspondence batches on generated "
+                  "lock-step histories; an independent dict-with-default oracle searches for failing inputs.",
+    "level_note": "Decisions. (a) The property's 'same answers after any sequence of writes' is read with attr[k][c] = x on a "
+                  "WRITTEN entry being a write (both storages hand out a reference to what they store - the test-suite does "
+                  "exactly this): proved to agree after repair accde53. On a NEVER-written entry nothing is stored in the sparse "
+                  "dict, the dense array has a row: the storages differ -> known finding (design-level: materialising on read "
+                  "would change sparse len/iteration/in). (b) Strings beyond the declared 32 characters: condemned by 'same "
+                  "answers', not repairable in a small way -> known finding; theorems carry the guard short_op. (c) `k in attr`: "
+                  "no __contains__; sparse = key written, dense = python's iteration fallback (membership among values, "
+                  "ValueError for vectors): modelled and corresponded, not a read of an entry, outside the agreement theorem; "
+                  "sparse len/iteration = written keys by documented design. (d) dense as_array returns a view, sparse a copy: "
+                  "updates of an export are not among the property's operations; proved: they touch at most the addressed entry "
+                  "of the exported attribute. (e) register_array_as_attribute adopts the caller's array: later caller-side "
+                  "mutation is outside the model. Trusted: Coq kernel + vm_compute; the c05 translator; the harness (generators, "
+                  "driver canonicalisation: read-back values cast to the attribute's type and compared exactly, strings as "
+                  "character-code lists, numpy arrays of complex/str passed to a write encoded as unsupported component types); "
+                  "numpy semantics assumed: np.array/np.full/np.concatenate allocate, a[k,:] and squeeze are views, dtype "
+                  "conversion on assignment (`store`). Not covered: `k in dense_string_attr`, numpy uint8, negative component "
+                  "indices in updates, sparse writes outside the container beyond dict semantics.",
 }
 
 HEADER = """From Coq Require Import ZArith List Bool.
@@ -956,8 +969,8 @@ def run(ctx):
                 "canonical JSON of the history")
     ctx.assumptions += [
         "floats are multiples of 1/8 of small magnitude (exact in binary32/64) and are compared exactly",
-        "strings are at most 8 characters (the dense storage truncates at 32 by design); string components of vectors and "
-        "in-place update payloads are at most one character (numpy fixed-width truncation inside a sparse cell is not modelled)",
+        "strings are at most 26 characters except in ~3% of the histories, which use a 35-character one (known finding "
+        "string-longer-than-fixed-width; the model cuts at the generated string_width exactly like numpy)",
         "in-place update payloads have a type the attribute itself accepts; numpy uint8 is not generated",
         "writes to a sparse attribute at indices outside the container are modelled (dict semantics) but the property is only "
         "claimed for element indices",
